@@ -146,7 +146,9 @@ func isZeroUnder(f *Facts, t *Term, depth int) bool {
 		return isZeroUnder(fl, t.Args[1], depth+1)
 	case OpMin:
 		a, b := t.Args[0], t.Args[1]
-		return (isZeroUnder(f, a, depth+1) && nonNegative(f, b, depth+1)) || (isZeroUnder(f, b, depth+1) && nonNegative(f, a, depth+1))
+		if (isZeroUnder(f, a, depth+1) && nonNegative(f, b, depth+1)) || (isZeroUnder(f, b, depth+1) && nonNegative(f, a, depth+1)) {
+			return true
+		}
 	case OpRem:
 		return isZeroUnder(f, t.Args[0], depth+1) && f.eval(Cond{Kind: CNE0, P: normSign(normInt(t.Args[1]))}) == Yes
 	case OpConv:
@@ -229,6 +231,9 @@ func nonPositive(f *Facts, t *Term, depth int) bool {
 
 // vacuous: the effect lies in a loop whose trip count is provably <= 0.
 func vacuous(e *Effect) bool {
+	if (e.Kind == ECopy || e.Kind == EClear) && e.N != nil && nonPositive(e.Facts, e.N, 0) {
+		return true
+	}
 	for _, l := range e.Loops {
 		if l.TripPoly != nil && nonPositive(e.Facts, l.Trip, 0) {
 			return true
